@@ -5,6 +5,7 @@ import DadiVerif.Lemmas.AdmixComm
 import DadiVerif.Lemmas.AdmixFloat
 import DadiVerif.Lemmas.AdmixLoops
 import DadiVerif.Lemmas.AdmixFilter
+import DadiVerif.Lemmas.AdmixView
 /-!
 # C06 — splits, admixture, pulses, removal and reordering conserve marginal densities
 
@@ -29,6 +30,13 @@ constructors / pulses and for the 17 public functions as K runs them; the mixtur
 the clamped bracket beyond the ends of the grid; pulse ∘ remove = remove ∘ pulse, two pulses; the generated loop structure;
 the proportion guard in floating point (assumptions: `RoundNearest`, `RoundEFT` of Lemmas/AdmixFloat.lean);
 `filter_pops` = marginal over the complement.
+
+Round 6 (end of the file): the density as an array OBJECT — `Gen.Admix.memRows` (what each function does to the array it is
+given) is what the docstrings promise (`C06_inplace`); basic-index stores through ANY injective strided view realise the
+functional update and touch nothing else (`C06_view_store`); hence every pulse, run in place on a transposed / Fortran /
+strided / reversed view, leaves in that view exactly what the functional model computes, and every constructor leaves the
+memory alone (`C06_inplace_view`); a flattened alias of the leading axes is a view only for mergeable strides
+(`C06_flatten_view`).
 -/
 set_option linter.unusedSimpArgs false
 set_option linter.unusedTactic false
@@ -683,5 +691,97 @@ example : let g : Array ℚ := #[0, 1/4, 1]
     (findRow "phi_2D_to_3D_admix").map (fun r => shapesOk r [1/3] [g, g, g] P) = some true ∧
     (match applyByName "phi_2D_admix_1_into_2" [1/3] [g, g] P with | .ok Q => totalMass [g, g] Q | _ => 0) = 19 / 4 := by
   decide +kernel
+
+/-! ## round 6: the density as an array object (memory layouts, in-place execution) -/
+
+/-- OBLIGATION on the generated `Gen.Admix.memRows` (what the source does to the array object it is given): same 17 functions
+    as `rows`, in the same order, then the six splitting / removing / reordering functions; every pulse is documented
+    "in place", stores exactly once, into its own never re-bound parameter, by basic indexing, nothing through a name derived
+    from it (`reshape`, `ravel`, `ascontiguousarray`, a slice ..), and returns that parameter; every other function is not
+    documented in place and stores nothing into its argument.  Fails for a pulse that first makes its argument contiguous, that
+    writes through a reshaped alias, that returns a copy, and for a constructor / removal that normalises its argument. -/
+theorem C06_inplace :
+    (Gen.Admix.memRows.take Gen.Admix.rows.length).map (fun m => (m.name, m.isPulse))
+      = Gen.Admix.rows.map (fun r => (r.name, r.isPulse)) ∧
+    (Gen.Admix.memRows.drop Gen.Admix.rows.length).map (·.name)
+      = ["phi_1D_to_2D", "phi_2D_to_3D_split_1", "phi_2D_to_3D_split_2", "remove_pop", "filter_pops", "reorder_pops"] ∧
+    ∀ m ∈ Gen.Admix.memRows, memOk m = true := by
+  refine ⟨by decide, by decide, by decide⟩
+
+/-- Stores `phi[idx] = val idx` through a view (offset, one stride per axis, any sign) whose entries live at distinct
+    addresses: every stored entry reads back as the stored value, the other entries of the view and all memory outside the
+    view keep their values — in whatever order the stores are made. -/
+theorem C06_view_store (v : View) (hinj : v.InjOn) (val : Idx → ℚ) (l : List Idx) (hl : ∀ i ∈ l, i ∈ boxIdx v.shape) (b : Buf) :
+    (∀ idx ∈ l, storeList v val l b (v.addr idx) = val idx) ∧
+    (∀ idx ∈ boxIdx v.shape, idx ∉ l → storeList v val l b (v.addr idx) = b (v.addr idx)) ∧
+    (∀ a, (∀ idx ∈ boxIdx v.shape, v.addr idx ≠ a) → storeList v val l b a = b a) :=
+  storeList_spec v hinj val l hl b
+
+/-- the hypothesis holds for the layouts the harness uses: the view `reorder_pops(.., [2,1])` returns of a C-contiguous 2×3
+    array (shape 3×2, strides 1, 3), every second entry of a 7×5 array starting at (1,1), a view reversed along both axes -/
+example : (⟨0, [1, 3], [3, 2]⟩ : View).InjOn ∧ (⟨6, [10, 2], [3, 2]⟩ : View).InjOn ∧ (⟨5, [-2, -1], [3, 2]⟩ : View).InjOn := by
+  refine ⟨?_, ?_, ?_⟩ <;> (unfold View.InjOn; decide)
+
+/-- …and a broadcast view (stride 0) is excluded -/
+example : ¬ (⟨0, [0, 1], [2, 2]⟩ : View).InjOn := by
+  unfold View.InjOn; decide
+
+/-- For each of the 17 functions (generated row, loop row and memory row) on ANY injective strided view `v` of memory `b`,
+    whenever the functional model `applyRowL` (the one of `C06_fn_mass`, `C06_loops_apply`, of all the conservation theorems)
+    returns `Q` on the density the view stands for: a pulse leaves `Q` in the entries of the view, returns the view, and
+    changes nothing else in memory; a constructor returns `Q` and leaves the memory as it was.  So the result does not depend
+    on the memory layout, and the in-place promise holds for views as for contiguous arrays. -/
+theorem C06_inplace_view : ∀ p ∈ List.zip Gen.Admix.rows Gen.Admix.loopRows, ∀ m ∈ Gen.Admix.memRows,
+    m.name = p.1.name → m.isPulse = p.1.isPulse →
+    ∀ (f : List ℚ) (grids : List (Array ℚ)) (b : Buf) (v : View), v.strides.length = v.shape.length → v.InjOn →
+    ∀ Q : Dens, applyRowL p.1 p.2 f grids (readView b v) = .ok Q →
+      (p.1.isPulse = true → ∃ b', applyInPlace p.1 p.2 m f grids b v = .ok b' (readView b' v) ∧
+          (∀ idx ∈ boxIdx v.shape, b' (v.addr idx) = Q.f idx) ∧
+          (∀ a, (∀ idx ∈ boxIdx v.shape, v.addr idx ≠ a) → b' a = b a)) ∧
+      (p.1.isPulse = false → applyInPlace p.1 p.2 m f grids b v = .ok b Q) := by
+  intro p hp m hm hn hpm f grids b v hs hinj Q hQ
+  have hL := C06_loops.2 p hp
+  have hmo := C06_inplace.2.2 m hm
+  exact ⟨fun hpul => applyInPlace_pulse p.1 p.2 m hL hpul hn hpm hmo f grids b v hs hinj Q hQ,
+    fun hpul => applyInPlace_new p.1 p.2 m hpul hn hpm hmo f grids b v hs Q hQ⟩
+
+/-- instance: `phi_2D_admix_1_into_2` in place on the TRANSPOSED view of the memory 1..9 (what `reorder_pops(.., [2,1])`
+    returns): the memory afterwards, read through the view, is what the function returns on the contiguous density, and its
+    total mass is that of the input -/
+example : (let g : Array ℚ := #[0, 1/4, 1]
+    let b : Buf := fun a => ((a.toNat + 1 : ℕ) : ℚ)
+    let v : View := ⟨0, [1, 3], [3, 3]⟩
+    match applyInPlaceByName "phi_2D_admix_1_into_2" [1/3] [g, g] b v, applyByName "phi_2D_admix_1_into_2" [1/3] [g, g] (readView b v) with
+     | .ok b' out, .ok Q => (boxIdx [3, 3]).all (fun idx => decide (b' (v.addr idx) = Q.f idx) && decide (out.f idx = Q.f idx)) &&
+                            decide (totalMass [g, g] out = totalMass [g, g] (readView b v)) &&
+                            decide (b' 9 = 10) && !decide (b' 1 = 2)
+     | _, _ => false) = true := by
+  decide +kernel
+
+/-- Why ONE loop over `phi.reshape(-1, n)` is not the loop nest over the two spectator populations: a 2-D view `w` addressing
+    the entries of a 3-D view row by row (`w[i*n1 + j, k] = v[i, j, k]`) exists only if the two leading strides can be merged,
+    `s0 = n1·s1`.  For every other layout `reshape` hands back a copy and stores into it never reach the argument. -/
+theorem C06_flatten_view (off s0 s1 s2 : ℤ) (n0 n1 n2 : ℕ) (h0 : 2 ≤ n0) (h1 : 2 ≤ n1) (h2 : 1 ≤ n2) (w : View)
+    (hw : w.strides.length = 2)
+    (h : ∀ i j k : ℕ, i < n0 → j < n1 → k < n2 →
+      w.addr [i * n1 + j, k] = (⟨off, [s0, s1, s2], [n0, n1, n2]⟩ : View).addr [i, j, k]) :
+    s0 = (n1 : ℤ) * s1 :=
+  flatten_needs_merge off s0 s1 s2 n0 n1 n2 h0 h1 h2 w hw h
+
+/-- satisfiable: a C-contiguous 2×3×2 array (strides 6, 2, 1) is addressed by the 6×2 view with strides 2, 1 … -/
+example : ∀ i j k : ℕ, i < 2 → j < 3 → k < 2 →
+    (⟨0, [2, 1], [6, 2]⟩ : View).addr [i * 3 + j, k] = (⟨0, [6, 2, 1], [2, 3, 2]⟩ : View).addr [i, j, k] := by
+  intro i j k _ _ _
+  simp only [View.addr, dotIS]
+  push_cast
+  ring
+
+/-- … while the view `reorder_pops(.., [3,1,2])` returns of a C-contiguous 3×2×2 array (shape 2×3×2, strides 1, 4, 2) cannot
+    be: 1 ≠ 3·4 -/
+example : ¬ ∃ w : View, w.strides.length = 2 ∧ ∀ i j k : ℕ, i < 2 → j < 3 → k < 2 →
+    w.addr [i * 3 + j, k] = (⟨0, [1, 4, 2], [2, 3, 2]⟩ : View).addr [i, j, k] := by
+  rintro ⟨w, hw, h⟩
+  have := C06_flatten_view 0 1 4 2 2 3 2 (by norm_num) (by norm_num) (by norm_num) w hw h
+  norm_num at this
 
 end DadiVerif
